@@ -27,9 +27,14 @@ MUT_ADD = {"add", "append"}
 
 
 def _self_field(e: ast.AST) -> Optional[str]:
-    """self.F or self.F[...] -> F"""
-    while isinstance(e, ast.Subscript):
-        e = e.value
+    """self.F, self.F[...], self.F.setdefault(k, d) / self.F.get(k) -> F"""
+    while True:
+        if isinstance(e, ast.Subscript):
+            e = e.value
+        elif isinstance(e, ast.Call) and isinstance(e.func, ast.Attribute) and e.func.attr in ("setdefault", "get"):
+            e = e.func.value
+        else:
+            break
     if isinstance(e, ast.Attribute) and isinstance(e.value, ast.Name) and e.value.id == "self":
         return e.attr
     return None
@@ -375,3 +380,131 @@ def run(rep: Report, prog: Program, tier: str) -> None:
     # ---------------- C12-REMB (= C07-REMB): the SSRC list inside a REMB is decoded as written
     from .common import import_rules
     import_rules(rep, prog, tier, PROP, "C12-REMB", "C07", ["C07-REMB"], "REMB SSRC lists survive pack/unpack (rule C07-REMB): route_rtcp sees the SSRCs the sender listed", 12)
+
+    # ---------------- C12-MODEL: the router class evaluated against a reference model over enumerated operation sequences
+    rep.rule("C12-MODEL", "RtpRouter behaves like the reference model for sequences of register / unregister / route operations", min_instances=20)
+    import itertools as _it2
+
+    from .objhook import make_hook as _mkh2
+
+    def _mx(call, evl):
+        if unparse(call.func).endswith("unpack_remb_fci"):
+            v = evl.ev(call.args[0])
+            if not isinstance(v, tuple) or v[0] != "REMB":
+                raise Raised("ValueError", call)
+            return (1000, list(v[1]))
+        if unparse(call.func) == "isinstance" and len(call.args) == 2:
+            obj = evl.ev(call.args[0])
+            names = [unparse(x).split(".")[-1] for x in (call.args[1].elts if isinstance(call.args[1], ast.Tuple) else [call.args[1]])]
+            return getattr(obj, "kind_", None) in names
+        return NotImplemented
+    mh = _mkh2(prog, _mx)
+    mev = Evaluator(prog, route_rtp.module, None, {}, mh)
+    RC = prog.cls("rtcdtlstransport.RtpRouter")
+
+    class Model:
+        def __init__(self):
+            self.ssrc = {}
+            self.pt = {}
+            self.senders = {}
+
+        def reg_r(self, r, ssrcs, pts):
+            for s_ in ssrcs:
+                self.ssrc[s_] = r
+            for p_ in pts:
+                self.pt.setdefault(p_, set()).add(r)
+
+        def unreg_r(self, r):
+            self.ssrc = {k: v for k, v in self.ssrc.items() if v != r}
+            for v in self.pt.values():
+                v.discard(r)
+
+        def reg_s(self, s_, ssrc):
+            self.senders[ssrc] = s_
+
+        def unreg_s(self, s_):
+            self.senders = {k: v for k, v in self.senders.items() if v != s_}
+
+        def rtp(self, ssrc, pt):
+            r = self.ssrc.get(ssrc)
+            acc = self.pt.get(pt, set())
+            if r is not None:
+                return r if r in acc else None
+            if len(acc) == 1:
+                r = next(iter(acc))
+                self.ssrc[ssrc] = r
+                return r
+            return None
+
+        def rtcp_senders(self, ssrcs):
+            return {self.senders[x] for x in ssrcs if x in self.senders}
+
+    class Party:
+        """A receiver/sender stand-in: hashable, compared by identity; senders carry the real class's `_ssrc` (primary SSRC)."""
+        def __init__(self, name, **kw):
+            self.name = name
+            self.__dict__.update(kw)
+
+        def __repr__(self):
+            return self.name
+
+        def __lt__(self, other):
+            return self.name < other.name
+    R1, R2, R3 = Party("R1"), Party("R2"), Party("R3")
+    S1, S2 = Party("S1", _ssrc=100), Party("S2", _ssrc=200)
+    scripts = {
+        "partly overlapping payload types": [("reg_r", R1, [10], [96, 97]), ("reg_r", R2, [20], [97, 98]), ("rtp", 10, 96), ("rtp", 20, 96), ("rtp", 20, 98), ("rtp", 30, 96),
+                                              ("rtp", 30, 97), ("rtp", 31, 98), ("rtp", 31, 96)],
+        "latched SSRC survives until unregistration": [("reg_r", R1, [], [96]), ("rtp", 50, 96), ("rtp", 50, 96), ("unreg_r", R1), ("rtp", 50, 96), ("rtp", 10, 96),
+                                                        ("reg_r", R2, [], [96]), ("rtp", 50, 96)],
+        "re-registration and take-over of an SSRC": [("reg_r", R1, [10, 11], [96]), ("reg_r", R2, [11], [96]), ("rtp", 11, 96), ("rtp", 10, 96), ("unreg_r", R2), ("rtp", 11, 96), ("rtp", 10, 96)],
+        "three receivers, ambiguous payload type": [("reg_r", R1, [1], [96]), ("reg_r", R2, [2], [96, 100]), ("reg_r", R3, [3], [100]), ("rtp", 9, 96), ("rtp", 9, 100), ("unreg_r", R2),
+                                                     ("rtp", 9, 96), ("rtp", 8, 100), ("rtp", 2, 100)],
+        "senders: two SSRCs for one sender, take-over, unregister": [("reg_s", S1, 100), ("reg_s", S1, 101), ("reg_s", S2, 200), ("rr", [100, 101, 200, 7]), ("unreg_s", S1), ("rr", [100, 101, 200]),
+                                                                       ("reg_s", S1, 200), ("rr", [200]), ("unreg_s", S2), ("rr", [200]), ("remb", [5, 200, 6]), ("unreg_s", S1), ("remb", [200])],
+    }
+    for label, script in scripts.items():
+        try:
+            router = mh.instantiate(RC, [], {}, mev)
+            model = Model()
+            problem = None
+            for step_i, op in enumerate(script):
+                kind = op[0]
+                if kind == "reg_r":
+                    mh.run_method(prog.find_method(RC, "register_receiver"), router, [op[1], list(op[2]), list(op[3])], {})
+                    model.reg_r(op[1], op[2], op[3])
+                elif kind == "unreg_r":
+                    mh.run_method(prog.find_method(RC, "unregister_receiver"), router, [op[1]], {})
+                    model.unreg_r(op[1])
+                elif kind == "reg_s":
+                    mh.run_method(prog.find_method(RC, "register_sender"), router, [op[1], op[2]], {})
+                    model.reg_s(op[1], op[2])
+                elif kind == "unreg_s":
+                    mh.run_method(prog.find_method(RC, "unregister_sender"), router, [op[1]], {})
+                    model.unreg_s(op[1])
+                elif kind == "rtp":
+                    got = mh.run_method(route_rtp, router, [SimpleNamespace(ssrc=op[1], payload_type=op[2])], {})
+                    want = model.rtp(op[1], op[2])
+                    if got != want:
+                        problem = f"step {step_i} {op}: RTP packet routed to {got}, the model says {want}"
+                        break
+                elif kind in ("rr", "remb"):
+                    if kind == "rr":
+                        pkt_ = SimpleNamespace(kind_="RtcpRrPacket", ssrc=1, reports=[SimpleNamespace(ssrc=x) for x in op[1]])
+                    else:
+                        pkt_ = SimpleNamespace(kind_="RtcpPsfbPacket", fmt=app, ssrc=1, media_ssrc=0, fci=("REMB", list(op[1])))
+                    got = mh.run_method(route_rtcp, router, [pkt_], {})
+                    want = model.rtcp_senders(op[1])
+                    if set(got) != want:
+                        problem = f"step {step_i} {op}: RTCP routed to {sorted(got)}, the model says {sorted(want)}"
+                        break
+            if problem:
+                rep.fail(mk_finding(prog, PROP, "C12-MODEL", route_rtp, route_rtp.node, f"[{label}] {problem}", construct=f"router model: {label}"))
+            else:
+                rep.ok("C12-MODEL", label, sample=f"{len(script)} operations agree with the model")
+                for _ in range(len(script) - 1):
+                    rep.ok("C12-MODEL", f"{label} (operation)", nontrivial=False)
+        except Raised as ex:
+            rep.fail(mk_finding(prog, PROP, "C12-MODEL", route_rtp, getattr(ex, "node", None), f"[{label}] raises {ex.name}", construct=f"router model raises {ex.name}"))
+        except Unknown as ex:
+            raise AnalysisError(f"C12-MODEL cannot evaluate [{label}]: {ex}")
